@@ -6,6 +6,9 @@ package uefiops
 import (
 	"bytes"
 	"fmt"
+	"io"
+	"os"
+	"path/filepath"
 	"strings"
 
 	"github.com/linuxboot/fiano/pkg/uefi"
@@ -283,21 +286,44 @@ func PPartition(args []string) string {
 	return "ok"
 }
 
-// C05: total — any outcome but a panic/hang/crash is fine (those are caught by the worker)
+// C05: total — any outcome but a panic/hang/crash is fine (those are caught by the worker).
+// Every parser entry point of pkg/uefi is tried on the bytes, and every tree walk on a tree
+// that parsing accepted.
 func PTotal(args []string) string {
 	img := UnH(args[0])
+	Reset()
+	_, _ = uefi.NewSection(img, 0)
+	Reset()
+	_, _ = uefi.NewFile(img)
+	Reset()
+	_, _ = uefi.NewFirmwareVolume(img, 0, true)
+	Reset()
+	_, _ = uefi.NewNVarStore(img)
+	Reset()
+	_, _ = uefi.NewMEFPT(img)
+	Reset()
+	_, _ = uefi.NewMERegion(img, &uefi.FlashRegion{}, uefi.RegionTypeME)
+	Reset()
+	if len(img) <= 1<<20 {
+		_, _ = uefi.NewFlashImage(img)
+	}
 	root, err := parseRegion(img)
 	if err != nil {
 		return "ok"
 	}
-	// tree walks on an accepted tree
-	for _, mk := range []func() uefi.Visitor{
-		func() uefi.Visitor { return &visitors.Validate{} },
-		func() uefi.Visitor { return &visitors.Assemble{} },
-	} {
-		v := mk()
-		_ = v.Run(root)
+	_ = (&visitors.Validate{}).Run(root)
+	_ = (&visitors.JSON{W: io.Discard}).Run(root)
+	_ = (&visitors.Table{}).Run(root)
+	if len(args) > 1 && args[1] == "x" {
+		dir, err := os.MkdirTemp("", "verif-c05-")
+		if err != nil {
+			return "harness-error tmpdir"
+		}
+		defer os.RemoveAll(dir)
+		var idx uint64
+		_ = (&visitors.Extract{BasePath: filepath.Join(dir, "x"), DirPath: ".", Index: &idx}).Run(root)
 	}
+	_ = (&visitors.Assemble{}).Run(root)
 	return "ok"
 }
 
